@@ -122,6 +122,127 @@ func c13Judge(c c13Case, w ast.Word) (class, detail string, nontrivial bool) {
 	return "", "", nontrivial
 }
 
+// ---- histories on ONE environment: IFS (and v) change between expansions of $@ / $*
+
+type c13Step struct {
+	Op  string  `json:"op"` // "keep", "set", "unset" (of IFS)
+	IFS *string `json:"ifs,omitempty"`
+	Src string  `json:"src"`
+}
+
+type c13Hist struct {
+	Args  []string  `json:"args"`
+	Steps []c13Step `json:"history"`
+}
+
+func c13HistJudge(h c13Hist) string {
+	env := interp.NewExecEnv(h.Args[0], h.Args[1:]...)
+	env.Opts = interp.NoGlob
+	st := &xpState{vars: map[string]string{}, args: h.Args}
+	st.optstr = env.Opts.String()
+	env.Unset("IFS")
+	env.Unset("v")
+	var trail []string
+	for i, sp := range h.Steps {
+		switch sp.Op {
+		case "set":
+			env.Set("IFS", *sp.IFS)
+			st.vars["IFS"] = *sp.IFS
+			trail = append(trail, fmt.Sprintf("IFS=%q", *sp.IFS))
+		case "unset":
+			env.Unset("IFS")
+			delete(st.vars, "IFS")
+			trail = append(trail, "unset IFS")
+		}
+		trail = append(trail, "expand "+sp.Src)
+		word, err := c13Parse(sp.Src)
+		if err != nil {
+			return fmt.Sprintf("the parser rejects %q: %v", sp.Src, err)
+		}
+		var got []string
+		var pan interface{}
+		func() {
+			defer func() { pan = recover() }()
+			got, err = env.Expand(word, 0)
+		}()
+		if pan != nil {
+			return fmt.Sprintf("step %d of [%s] with args %q: Expand panicked: %v", i, strings.Join(trail, "; "), h.Args, pan)
+		}
+		mf, merr := st.expandWord(word, false)
+		if st.gray != "" {
+			return ""
+		}
+		if (merr != nil) != (err != nil) {
+			return fmt.Sprintf("step %d of [%s] with args %q on one environment: Expand gives %q, %v; the table gives error=%v", i, strings.Join(trail, "; "), h.Args, got, err, merr)
+		}
+		if merr != nil {
+			continue
+		}
+		want := st.split(mf)
+		if len(got) == 0 && len(want) == 0 {
+			got, want = nil, nil
+		}
+		if !reflect.DeepEqual(got, want) {
+			return fmt.Sprintf("step %d of [%s] with args %q on one environment: Expand gives %q, the table gives %q", i, strings.Join(trail, "; "), h.Args, got, want)
+		}
+		for _, n := range []string{"v", "IFS"} {
+			gv, gok := env.Get(n)
+			mv, mok := st.vars[n]
+			if gok != mok || gok && gv.Value != mv {
+				return fmt.Sprintf("step %d of [%s] with args %q on one environment: afterwards %s is %q (set=%v), the table gives %q (set=%v)", i, strings.Join(trail, "; "), h.Args, n, gv.Value, gok, mv, mok)
+			}
+		}
+	}
+	return ""
+}
+
+// c13Histories: every sequence of ≤ 3 steps (IFS kept / set to one of 4 values / unset, then one of 8 probe
+// words) for two positional lists.
+func c13Histories(w *W) {
+	type op struct {
+		op  string
+		ifs *string
+	}
+	ops := []op{{"keep", nil}, {"set", strp(":")}, {"set", strp(" \t\n")}, {"set", strp("")}, {"set", strp(",x")}, {"unset", nil}}
+	probes := []string{`"$*"`, `$*`, `"$@"`, `$@`, `x"$*"y`, `"${*}"`, `${v:="$*"}`, `"$v"`}
+	depth := 3
+	var steps []c13Step
+	for _, o := range ops {
+		for _, p := range probes {
+			steps = append(steps, c13Step{o.op, o.ifs, p})
+		}
+	}
+	for _, args := range [][]string{{"sh", "a", "b"}, {"sh", "a b", "", "c"}} {
+		cur := make([]c13Step, 0, depth)
+		var rec func()
+		rec = func() {
+			if len(cur) > 0 && w.Mine() && !w.TimeUp() {
+				h := c13Hist{Args: args, Steps: append([]c13Step{}, cur...)}
+				w.Count("evaluations", int64(len(cur)))
+				w.Count("histories", 1)
+				w.Count("states", 1)
+				w.Count("transitions", int64(len(cur)))
+				w.Count("traces_validated_against_impl", 1)
+				if len(cur) > 1 {
+					w.Count("distinct_nontrivial", 1)
+				}
+				if d := c13HistJudge(h); d != "" {
+					w.Violation("history", h, d)
+				}
+			}
+			if len(cur) == depth {
+				return
+			}
+			for _, sp := range steps {
+				cur = append(cur, sp)
+				rec()
+				cur = cur[:len(cur)-1]
+			}
+		}
+		rec()
+	}
+}
+
 func c13Sources(thorough bool) []string {
 	names := []string{"v", "1", "10", "@", "*", "#", "?", "0", "-", "!"}
 	words := []string{"", "w", "$y", "${z:=s}", "'q q'", "a b", "\"$@\"", "*", "${z:+a}${z:=b}"}
@@ -146,7 +267,7 @@ func c13Sources(thorough bool) []string {
 	}
 	var out []string
 	for _, in := range inner {
-		out = append(out, in, `"`+in+`"`, "x"+in+"y", `"x`+in+`y"`)
+		out = append(out, in, `"`+in+`"`, "x"+in+"y", `"x`+in+`y"`, `"`+in+`: y"`, `x"`+in+` y"`)
 	}
 	sort.Strings(out)
 	return out
@@ -199,12 +320,19 @@ func init() {
 	register(&check{
 		id:    "C13",
 		level: "model_checking",
-		rule: "complete product {v, 1, 10, @, *, #, ?, 0, -, !} × {$p, ${p}, ${#p}, 8 default/assign/error/alternative operators × word menu, 4 removal operators × pattern menu} × {bare, double-quoted, embedded, embedded+quoted} " +
-			"× v ∈ {unset, '', v, 'a b', a:b, *, é, abab} × 6 positional lists × nounset × IFS ∈ {default, ':', '', unset}; non-trivial = an operator form, a multi-field result, an error or an assignment",
+		rule: "complete product {v, 1, 10, @, *, #, ?, 0, -, !} × {$p, ${p}, ${#p}, 8 default/assign/error/alternative operators × word menu, 4 removal operators × pattern menu} × {bare, double-quoted, embedded, embedded+quoted, first in a quoted part that goes on, the same after unquoted text} " +
+			"× v ∈ {unset, '', v, 'a b', a:b, *, é, abab} × 6 positional lists × nounset × IFS ∈ {default, ':', '', unset}; plus histories on ONE environment: every sequence of ≤ 3 steps (IFS kept / set to ':', default, '', ',x' / unset, then one of 8 words around $* and $@ incl. ${v:=\"$*\"}) for two positional lists, each step compared with the table; non-trivial = an operator form, a multi-field result, an error or an assignment",
 		assume: []string{"reference expansion model xpmodel.go (POSIX table, $@/$*, C14 splitter, pattern model of C12)",
 			"constructs POSIX or the property leave open are skipped for comparison (only 'no panic'): $- with no option, $$, ${#@}, $@/$* with no positional parameters under non-colon operators, removal on $*, ${p:=w} with quoted w outside double quotes"},
-		run: c13Run,
+		run: func(w *W) { c13Run(w); c13Histories(w) },
 		replay: func(raw json.RawMessage) error {
+			var h c13Hist
+			if err := json.Unmarshal(raw, &h); err == nil && len(h.Steps) > 0 {
+				if d := c13HistJudge(h); d != "" {
+					return fmt.Errorf("%s", d)
+				}
+				return nil
+			}
 			var c c13Case
 			if err := json.Unmarshal(raw, &c); err != nil {
 				return err
